@@ -317,6 +317,47 @@ func VerifH_C11_roundtrip() {
 	}
 }
 
+// VerifH_C11_composite2: a composite glyph with two or three components (flags, argument sizes, ids and
+// instructions symbolic; WE_HAVE_INSTRUCTIONS on any component) followed by a simple glyph round-trips.
+func VerifH_C11_composite2() {
+	nc := 2 + verifChoose("ncomp", 2)
+	cg := CompositeGlyph{}
+	haveInstr := false
+	for i := 0; i < nc; i++ {
+		// the instruction flag, the argument width and the rounding / metrics bits are symbolic; no transform
+		f := ComponentFlag(verifU16("c.flags")) & (FlagArgsAreXYValues | FlagUseMyMetrics)
+		if i < nc-1 {
+			f |= FlagMoreComponents
+		}
+		if verifChoose("c.instr", 2) == 1 {
+			f |= FlagWeHaveInstructions
+			haveInstr = true
+		}
+		sz := 2
+		if verifChoose("c.words", 2) == 1 {
+			f |= FlagArg1And2AreWords
+			sz = 4
+		}
+		cg.Components = append(cg.Components, GlyphComponent{Flags: f, GlyphIndex: glyph.ID(verifU16("c.gid")), Data: verifBytes("c.args", sz)})
+	}
+	if haveInstr {
+		cg.Instructions = append([]byte{}, verifBytes("c.instr", verifChoose("c.ilen", 4))...)
+	}
+	gg := Glyphs{&Glyph{Rect16: verifRect("c"), Data: cg}, {Rect16: funit.Rect16{URx: 5, URy: 10}, Data: SimpleGlyph{NumContours: 1, Encoded: []byte{0, 0, 0, 0, 0x37, 5, 10}}}}
+	enc := gg.Encode()
+	checkLoca(enc, len(gg))
+	got, err := Decode(enc)
+	verifAssert(err == nil, "own output is accepted")
+	if err != nil {
+		return
+	}
+	verifReach("decoded")
+	verifAssert(len(got) == len(gg), "glyph count")
+	for i := range gg {
+		verifAssert(sameGlyph(gg[i], got[i]), "glyph round-trips bit for bit")
+	}
+}
+
 // VerifH_C11_fixpoint: for arbitrary bytes accepted by Decode, decode -> encode -> decode is a fixed point
 // and the re-encoded table is stable.
 func VerifH_C11_fixpoint() {
